@@ -111,8 +111,8 @@ def render(x):
 # --------------------------------------------------------------------------------------------------------------------
 # container kinds
 # --------------------------------------------------------------------------------------------------------------------
-CONTAINERS_QUICK = ('nd', 'list', 'view')
-CONTAINERS_THOROUGH = ('nd', 'list', 'view', 'forder', 'negstride', 'f32')
+CONTAINERS_QUICK = ('nd', 'list', 'view', 'tuple', 'readonly')
+CONTAINERS_THOROUGH = ('nd', 'list', 'view', 'tuple', 'readonly', 'forder', 'negstride', 'f32')
 SCALES_THOROUGH = (1.0, 1e-3, 1e3)      # magnitude of the non-normalised inputs (non-unit quaternions, axes, acc / mag samples, reference vectors)
 
 
@@ -126,6 +126,12 @@ def contain(x, kind):
         base = np.full(x.shape[:-1] + (2 * x.shape[-1],), -7.25, dtype=x.dtype)
         base[..., ::2] = x
         return base[..., ::2]
+    if kind == 'tuple':
+        return tuple(x.tolist()) if x.ndim == 1 else tuple(tuple(r) if isinstance(r, list) else r for r in x.tolist())
+    if kind == 'readonly':          # a caller that protects its data: writing into it raises
+        y = np.array(x, copy=True)
+        y.setflags(write=False)
+        return y
     if kind == 'forder':
         return np.asfortranarray(x) if x.ndim > 1 else np.array(x, copy=True)
     if kind == 'negstride':
@@ -1417,7 +1423,7 @@ def history(ctx, L, cid, entry, case, cont, k, scale=1.0):
             ctx.cls('inplace-requested(exempt)')
         if rng:
             ctx.cls('rng:reseeded')
-    return ok, (first[1] if not ok else None)
+    return ok, (first[1] if not ok else None), first[0]
 
 
 def _cases_for(cid, inv, V, L):
@@ -1468,7 +1474,7 @@ def job_callables(ctx, ids, k, scale=1.0):
             for case in cases:
                 has_arr = any(type(v) is np.ndarray and v.ndim >= 1 for n, v in case['make']().items() if n not in case.get('keep', ()))
                 for cont in (conts if has_arr else ('nd',)):
-                    ok, why = history(ctx, L, cid, entry, case, cont, k, scale)
+                    ok, why, fr = history(ctx, L, cid, entry, case, cont, k, scale)
                     n_all += 1
                     n_ok += bool(ok)
                     if not ok and cont == 'nd':
